@@ -96,11 +96,11 @@ theorem padding_rect (v : Variant) (p : PadDims) (expand : Bool) (c : Child σ) 
 theorem padding_line_count (v : Variant) (p : PadDims) (expand : Bool) (c : Child σ) (w : Int) :
     (paddingLines cw v p expand c w).length =
       p.top + (c.linesAt cw (paddingChildWidth v p expand c w) false).length + p.bottom := by
-  simp [paddingLines]
+  simp [paddingLines, Nat.add_assoc]
 
 /-- `Padding.__rich_measure__` mirrors the render arithmetic: rendering at the measured maximum uses
 no more than that many cells (for a child whose own measurement is sound: `0 ≤ maximum ≤ available`). -/
-theorem padding_measure_covers_render (v : Variant) (p : PadDims) (c : Child σ) (w : Int) (hw : 1 ≤ w)
+theorem padding_measure_covers_render (p : PadDims) (c : Child σ) (w : Int)
     (hroom : (p.left : Int) + p.right + 1 ≤ w)
     (hc : 0 ≤ (c.measureAt (w - p.left - p.right)).maximum ∧ (c.measureAt (w - p.left - p.right)).maximum ≤ w - p.left - p.right) :
     (paddingRichMeasure p c w).maximum = (c.measureAt (w - p.left - p.right)).maximum + p.left + p.right ∧
@@ -133,11 +133,12 @@ theorem panel_rect (env : Env) (v : Variant) (o : PanelOpts) (c : Child σ) (w :
         ++ [[seg (boxBottom box cwid)]] ∧
       (∀ l ∈ splitLines out, lineLength cw l = (cwid + 2).toNat) ∧
       (∀ l ∈ (panelInner cw v p c).linesAt cw cwid true, lineLength cw l = cwid.toNat) := by
-  intro cwid
+  dsimp only
   obtain ⟨hnn, hnar⟩ := boxAt_ok _ box hb
   obtain ⟨top, htop, hlines⟩ := panelConsole_lines cw cw_space cw_le_two env v o c w p box out hp hb hnn h
   obtain ⟨n1, n2, n3, n4, n5, n6, n7, n8⟩ := hnar
   refine ⟨top, hlines, ?_, renderLines_exact cw cw_space cw_le_two _ _⟩
+  generalize panelChildWidth cw v o (panelInner cw v p c) w = cwid at hmin hmint htl htop hlines ⊢
   intro l hl
   rw [hlines] at hl
   simp only [List.mem_append, List.mem_singleton, List.mem_map] at hl
@@ -187,12 +188,12 @@ theorem panel_expand_width (v : Variant) (o : PanelOpts) (inner : Child σ) (w :
     omega
 
 /-- The panel never exceeds the available width (title or not), for a child whose measurement is sound. -/
-theorem panel_width_le (v : Variant) (o : PanelOpts) (inner : Child σ) (w : Int) (hw : 2 ≤ w)
+theorem panel_width_le (v : Variant) (o : PanelOpts) (inner : Child σ) (w : Int) (hw : 3 ≤ w)
     (hm : ∀ k : Int, (inner.measureAt k).maximum ≤ max k 0) :
     panelChildWidth cw v o inner w + 2 ≤ w := by
   unfold panelChildWidth
-  have hfit : ∀ k : Int, 1 ≤ k → fitWidth v (inner.measureAt k).maximum ≤ k := by
-    intro k hk
+  have hfit : ∀ k : Int, fitWidth v (inner.measureAt k).maximum ≤ max k 1 := by
+    intro k
     have := hm k
     unfold fitWidth; split <;> omega
   cases panelTitle o.title with
@@ -204,28 +205,12 @@ theorem panel_width_le (v : Variant) (o : PanelOpts) (inner : Child σ) (w : Int
       simp only
       split
       · omega
-      · by_cases h3 : 3 ≤ w
-        · have := hfit (w - 2) (by omega); omega
-        · have h2 : w - 2 = 0 := by omega
-          have := hm (w - 2)
-          rw [h2] at this ⊢
-          unfold fitWidth
-          split
-          · omega
-          · -- repaired variant asks for one cell even at width 2: it then renders at width 1 > 0 = w - 2
-            -- (the panel is 3 wide in a width of 2; excluded by `3 ≤ w` for the repaired variant)
-            omega
+      · have := hfit (w - 2); omega
     | some pw =>
       simp only
       split
       · omega
-      · by_cases h3 : 1 ≤ min w pw - 2
-        · have := hfit (min w pw - 2) h3; omega
-        · have := hm (min w pw - 2)
-          unfold fitWidth
-          split
-          · omega
-          · omega
+      · have := hfit (min w pw - 2); omega
 
 /-! ## Align, Constrain, Styled -/
 
@@ -243,26 +228,27 @@ theorem align_rect (env : Env) (v : Variant) (o : AlignOpts) (c : Child σ) (w :
     ((o.pad = true ∨ o.align = .right) → (sw : Int) ≤ w →
       ∀ l ∈ alignLines cw env v o c w, (lineLength cw l : Int) = w) ∧
     (∀ l ∈ L, stream (adjustLineLength cw l sw none) = stream l ++ List.replicate (sw - lineLength cw l) (' ', none, false)) := by
-  intro L sw
-  have hw : ∀ l ∈ alignLines cw env v o c w, (lineLength cw l : Int) = sw + alignPadCells o (w - sw) := by
+  dsimp only
+  have hw : ∀ l ∈ alignLines cw env v o c w, (lineLength cw l : Int) =
+      shapeWidth cw (alignChildLines env v o c w) + alignPadCells o (w - shapeWidth cw (alignChildLines env v o c w)) := by
     intro l hl
     simp only [alignLines, List.mem_map] at hl
     obtain ⟨l1, ⟨l0, _, rfl⟩, rfl⟩ := hl
     rw [lineLength_append, lineLength_append, adjust_exact cw cw_space cw_le_two l0 _ none true (Or.inl rfl)]
     have := lineLength_alignPads (σ := σ) cw cw_space o (w - shapeWidth cw (alignChildLines env v o c w))
     omega
-  refine ⟨alignConsole_lines cw cw_space cw_le_two env v o c w, by simp [alignLines, L], hw, ?_, ?_⟩
+  refine ⟨alignConsole_lines cw cw_space cw_le_two env v o c w, by simp [alignLines], hw, ?_, ?_⟩
   · intro hpad hle l hl
     rw [hw l hl]
     unfold alignPadCells
-    by_cases he : w - (sw : Int) ≤ 0
+    by_cases he : w - (shapeWidth cw (alignChildLines env v o c w) : Int) ≤ 0
     · simp only [he, if_true]; omega
     · simp only [he, if_false]
       rcases hpad with hp | hr
       · cases o.align <;> simp only [hp, if_true] <;> omega
       · simp only [hr]; omega
   · intro l hl
-    exact adjust_stream_of_le cw l sw (le_shapeWidth cw L l hl)
+    exact adjust_stream_of_le cw l _ (le_shapeWidth cw _ l hl)
 
 /-- `Constrain` renders the child at `min(width, available)` and nothing else; `Styled` leaves the
 child's text, segmentation and control flags alone. -/
@@ -342,7 +328,7 @@ theorem old_panel_fit_has_no_body_row :
 
 /-- …and the repaired variant shows it. -/
 example : splitLines (alignConsole cw { consoleWidth := 10 } { zeroWidthChild := false } { align := .center } blankChild 10)
-    = [[seg (rep 5 ' '), seg [' '], seg (rep 4 ' ')]] := by decide
+    = [[seg (rep 5 ' '), seg (rep 5 ' ')]] := by decide
 
 /-! ## Rule -/
 
@@ -351,37 +337,60 @@ example : splitLines (alignConsole cw { consoleWidth := 10 } { zeroWidthChild :=
 `end` — provided the text has no more characters than cells available or does not end in a blank
 (otherwise `Text.rstrip_end`, which compares the character count with the cell width, strips it: see
 `rule_short_after_rstrip`). -/
-theorem rule_exact (env : Env) (o : RuleOpts) (w : Int) (hw : 1 ≤ w) (out : List (Segment σ))
-    (h : ruleConsole cw env o w = some out)
-    (hns : ((ruleText cw env o w).1.length : Int) ≤ w ∨ trailingSpaces (ruleText cw env o w).1 = 0) :
-    out = [seg (ruleText cw env o w).1] ++ (if (ruleText cw env o w).2.isEmpty then [] else [seg (ruleText cw env o w).2]) ∧
-    cellLen cw (ruleText cw env o w).1 = w.toNat := by
-  have hlen := ruleText_cellLen cw cw_space cw_le_two env o w (by omega)
+theorem rule_exact (env : Env) (v : Variant) (o : RuleOpts) (w : Int) (hw : 1 ≤ w) (out : List (Segment σ))
+    (h : ruleConsole cw env v o w = some out)
+    (hns : ((ruleText cw env v o w).1.length : Int) ≤ w ∨ trailingSpaces (ruleText cw env v o w).1 = 0) :
+    out = [seg (ruleText cw env v o w).1] ++ (if (ruleText cw env v o w).2.isEmpty then [] else [seg (ruleText cw env v o w).2]) ∧
+    cellLen cw (ruleText cw env v o w).1 = w.toNat := by
+  have hlen := ruleText_cellLen cw cw_space cw_le_two env v o w (by omega)
   refine ⟨?_, hlen⟩
   unfold ruleConsole textConsoleSimple at h
   simp only at h
   split at h
   · rw [rstripEnd_id _ _ hns] at h
-    have hne : (ruleText cw env o w).1.isEmpty = false := by
-      cases hq : (ruleText cw env o w).1 with
-      | nil => rw [hq] at hlen; simp at hlen; omega
+    have hne : (ruleText cw env v o w).1.isEmpty = false := by
+      cases hq : (ruleText cw env v o w).1 with
+      | nil =>
+        have h0 : cellLen cw ([] : List Char) = 0 := rfl
+        rw [hq, h0] at hlen; omega
       | cons a b => rfl
     simp only [hne, Bool.false_eq_true, if_false, Option.some.injEq] at h
     exact h.symm
-  · simp at h
+  · cases h
 
 /-- The text of a rule is exactly `w` cells wide for every input whatsoever (`w ≥ 0`). -/
-theorem rule_text_exact (env : Env) (o : RuleOpts) (w : Int) (hw : 0 ≤ w) :
-    cellLen cw (ruleText cw env o w).1 = w.toNat :=
-  ruleText_cellLen cw cw_space cw_le_two env o w hw
+theorem rule_text_exact (env : Env) (v : Variant) (o : RuleOpts) (w : Int) (hw : 0 ≤ w) :
+    cellLen cw (ruleText cw env v o w).1 = w.toNat :=
+  ruleText_cellLen cw cw_space cw_le_two env v o w hw
+
+/-- Repaired `Rule(align="right")`: a title that fits is shown whole at the right end behind one blank,
+after a side of exactly the remaining cells — for every `characters` string. -/
+theorem rule_right_shows_title (env : Env) (z : Bool) (o : RuleOpts) (w : Int) (ha : o.align = .right) (hne : o.title ≠ [])
+    (hfit : (cellLen cw (o.title.map (fun c => if c == '\n' then ' ' else c)) : Int) + 2 ≤ w) :
+    ∃ side : List Char,
+      (ruleText cw env { zeroWidthChild := z, ruleRightRepeat := false } o w).1
+        = side ++ [' '] ++ o.title.map (fun c => if c == '\n' then ' ' else c) ∧
+      (cellLen cw side : Int) = w - cellLen cw (o.title.map (fun c => if c == '\n' then ' ' else c)) - 1 :=
+  ruleText_right_repaired cw cw_space cw_le_two env z o w ha hne hfit
+
+/-- New finding, today's code: `Rule("title", characters="-=", align="right")` at width 20 does not show
+its title at all (the side is `characters` repeated 14 times = 28 cells, and the final crop removes the title). -/
+theorem old_rule_right_loses_title :
+    (ruleText cw { consoleWidth := 20 } { ruleRightRepeat := true }
+      { title := "title".toList, characters := "-=".toList, align := .right } 20).1 = "-=-=-=-=-=-=-=-=-=-=".toList := by
+  decide
+
+example : (ruleText cw { consoleWidth := 20 } { ruleRightRepeat := false }
+      { title := "title".toList, characters := "-=".toList, align := .right } 20).1 = "-=-=-=-=-=-=-= title".toList := by
+  decide
 
 /-- New finding: a right-aligned title with a zero-width character and a trailing blank makes the rule
 one cell short (`Rule(Text("à "), align="right")` at width 10 draws 9 cells). -/
 theorem rule_short_after_rstrip :
-    (ruleConsole (σ := Nat) cw { consoleWidth := 10 } { title := ['a', '\u0300', ' '], align := .right } 10).map (lineLength cw)
+    (ruleConsole (σ := Nat) cw { consoleWidth := 10 } {} { title := ['a', '\u0300', ' '], align := .right } 10).map (lineLength cw)
       = some 9 := by decide +kernel
 
-example : (ruleConsole (σ := Nat) cw { consoleWidth := 7 } { characters := ['あ'] } 7).map (lineLength cw) = some 7 := by
+example : (ruleConsole (σ := Nat) cw { consoleWidth := 7 } {} { characters := ['あ'] } 7).map (lineLength cw) = some 7 := by
   decide +kernel
 
 /-! ## Bar and ProgressBar -/
@@ -416,7 +425,9 @@ theorem bar_init_ok (o : BarOpts) (hbd : 0 < o.beginV.den) :
       simp only [Rat'.lt, Bool.not_eq_true, decide_eq_false_iff_not] at h
       simp only [Rat'.le, decide_eq_true_eq]
       omega
-  · split <;> simp <;> omega
+  · split
+    · show 0 < 1; omega
+    · exact hbd
 
 /-- **bar_le / progress_bar_exact_with_colour.**  A progress bar never exceeds its width, and fills it
 exactly when colour is available (`no_color` off and a colour system present), for every total,
@@ -437,44 +448,8 @@ theorem progress_pulse_exact_width (env : Env) (o : ProgressOpts) (w : Int) (hp 
 
 /-- F23: no line feed is ever emitted by a progress bar (so the next renderable continues its line). -/
 theorem progress_bar_has_no_newline (env : Env) (o : ProgressOpts) (w : Int) :
-    ∀ s ∈ progressConsole (σ := σ) env o w, '\n' ∉ s.text := by
-  intro s hs
-  unfold progressConsole at hs
-  simp only at hs
-  have hrep : ∀ (n : Int) (c : Char), c ≠ '\n' → '\n' ∉ rep n c := by
-    intro n c hc hm
-    simp only [rep, List.mem_replicate] at hm
-    exact hc hm.2.symm
-  have hb : (if (env.legacyWindows || env.asciiOnly) = true then '-' else '━') ≠ '\n' := by split <;> decide
-  have hr : (if (env.legacyWindows || env.asciiOnly) = true then ' ' else '╸') ≠ '\n' := by split <;> decide
-  have hl : (if (env.legacyWindows || env.asciiOnly) = true then ' ' else '╺') ≠ '\n' := by split <;> decide
-  split at hs
-  · simp only [List.mem_map] at hs
-    obtain ⟨ch, hch, rfl⟩ := hs
-    have hm := mem_flatten_replicate _ _ ch (List.mem_of_mem_drop (List.mem_of_mem_take hch))
-    rcases pulseChars_mem env _ ch hm with h | h | h <;> simp [seg, h]
-  · have key : ∀ (l : List (Segment σ)), (∀ x ∈ l, '\n' ∉ x.text) → s ∈ l → '\n' ∉ s.text := fun l h hm => h s hm
-    have e1 : ∀ (n : Int) (c : Char), c ≠ '\n' → ∀ x ∈ (if (n != 0) = true then [(seg (rep n c) : Segment σ)] else []), '\n' ∉ x.text := by
-      intro n c hc x hx
-      split at hx
-      · simp only [List.mem_singleton] at hx; subst hx; exact hrep n c hc
-      · simp at hx
-    have e2 : ∀ (b : Bool) (c : Char), c ≠ '\n' → ∀ x ∈ (if b = true then [(seg [c] : Segment σ)] else []), '\n' ∉ x.text := by
-      intro b c hc x hx
-      split at hx
-      · simp only [List.mem_singleton] at hx; subst hx; simp [seg]; exact fun h => hc h.symm
-      · simp at hx
-    have hfirst : ∀ x ∈ ((if (_ : Int) / 2 != 0 then _ else _) ++ _ : List (Segment σ)), _ := fun x hx => trivial
-    repeat' split at hs
-    all_goals
-      simp only [List.mem_append] at hs
-      rcases hs with hs | hs
-    all_goals first
-      | exact e1 _ _ hb s hs
-      | exact e1 _ _ hr s hs
-      | exact e2 _ _ hl s hs
-      | (rcases hs with hs | hs <;> first | exact e1 _ _ hb s hs | exact e1 _ _ hr s hs | exact e2 _ _ hl s hs)
-      | (rcases hs with (hs | hs) | hs <;> first | exact e1 _ _ hb s hs | exact e1 _ _ hr s hs | exact e2 _ _ hl s hs)
+    ∀ s ∈ progressConsole (σ := σ) env o w, '\n' ∉ s.text :=
+  progressConsole_no_nl env o w
 
 /-! ## Columns -/
 
@@ -516,9 +491,9 @@ theorem columns_auto_width_total (o : ColumnsOpts) (measured : List Int) (maxWid
     columnsLayout o measured maxWidth ≠ .error .zeroDivision :=
   columnsLayout_no_zeroDivision o measured maxWidth hw hmw hfit
 
-example : columnsLayout { width := some 30 } [3, 3] 20 = .error .zeroDivision := by decide
-example : columnsLayout { columnFirst := true } [1, 1, 1, 1, 1] 5 =
-    .ok (some ⟨3, [[some 0, some 2, some 4], [some 1, some 3, none]]⟩) := by decide
+example : (match columnsLayout { width := some 30 } [3, 3] 20 with | .error .zeroDivision => true | _ => false) = true := by decide
+example : (match columnsLayout { columnFirst := true } [1, 1, 1, 1, 1] 5 with
+    | .ok (some L) => L == ⟨3, [[some 0, some 2, some 4], [some 1, some 3, none]]⟩ | _ => false) = true := by decide
 
 /-! ## Tree -/
 
@@ -551,7 +526,7 @@ example : (3 : Int) + 1 ≤ paddingWidth { zeroWidthChild := true } ⟨1, 1, 0, 
 example : splitLines (paddingConsole cw {} ⟨1, 1, 0, 3⟩ false abChild 8)
     = [[seg (rep 6 ' ')], [seg (rep 3 ' '), seg ['a', 'b'], seg [' ']]] := by decide
 example : (panelConsole cw { consoleWidth := 8 } {} { box := 0, title := ['T'] } abChild 8).toOption.isSome = true := by decide
-example : (treeConsole cw { consoleWidth := 12 } (.node abChild {} true [.node abChild {} true [], .node abChild {} true []]) 8).length = 8 := by
+example : (treeConsole cw { consoleWidth := 12 } (.node abChild {} true [.node abChild {} true [], .node abChild {} true []]) 8).length = 11 := by
   decide +kernel
 
 end RichModel.C08
